@@ -398,6 +398,9 @@ func Run(run *core.Run) {
 	for k := 1; k <= len(P) && !run.Failed(); k++ {
 		cased(fmt.Sprintf("%s:call:%d", wkey, k), func() {
 			plan := &faults.Plan{KthCall: k, JunkName: w.junkNames}
+			if w.stayDown {
+				plan = &faults.Plan{FromCall: k, JunkName: w.junkNames} // a resolver that stays down: every later call fails too
+			}
 			if w.notFoundErrs {
 				plan.Err = faults.NewNotFound(fmt.Sprint(k))
 			} else if w.tempErrs {
@@ -607,7 +610,7 @@ func restoreFault(run *core.Run, w *workload, truth map[string]string, plans []*
 			}
 			return
 		}
-		if plan.KthCall > 0 {
+		if plan.KthCall > 0 || plan.FromCall > 0 {
 			run.Count("fault-fired/pkg-kth")
 		} else {
 			run.Count("fault-fired/pkg-path")
